@@ -5,7 +5,7 @@ PROPS["C19"] = prop(
     "rapid-generated query strings against a reference parser written from docs/API.md; normalisation image check for tags; multiset model for reserved-namespace helpers; "
     "world: rapid-generated histories of {set tags} on 'me'/groups (owner, non-owner), {acc tags}, group creation with tags, {set fnd public|private} + {get fnd sub}, "
     "account suspension/deletion and topic deletion under generated reserved/masked/rewriting namespace configurations, judged by a reference model of accounts, topics, tags and "
-    "states compared with the store, the cached tags, every {meta tags} and the answer of every search after every step",
+    "states compared with the store, the cached tags, every {meta tags} and the answer of every search after every step; thorough tier: the same generators and oracles also run under Go's native coverage-guided fuzzer (rapid.MakeFuzz, 60 s per target, all cores)",
     "query unit: strings <= 24 runes over letters, digits, space, tab, comma, quote, colon, @ + . _ - and non-ASCII letters, biased to 2-5 terms, under generated "
     "validator/authenticator configurations; non-trivial = >= 2 terms and one of {comma, quote, rewritable term}; tag units: non-trivial = >= 2 tags with a duplicate, "
     "an invalid tag or more than the count limit / lists carrying reserved-namespace tags; world unit: 4 accounts with tags seeded through the store (e-mail, phone, login, org, geo "
@@ -20,8 +20,8 @@ PROPS["C19"] = prop(
     "(world: still checked for 'only visible, matching objects, no foreign masked tag'). World part trusts verifmem's FindUsers/FindTopics (mirror of the MySQL adapter) and "
     "installs the namespace configuration (globals.immutableTagNS/maskedTagNS/validators, basic add_to_tags) the way main.go derives it.",
     "5/C19", "server-pure+world",
-    [Unit("TestC19Query", _C19_MAIN, quick=75000, thorough=1250000, shards_quick=4, shards_thorough=16),
-     Unit("TestC19NormalizeTags", _C19_MAIN, quick=50000, thorough=1000000, shards_quick=2, shards_thorough=8),
+    [Unit("TestC19Query", _C19_MAIN, quick=75000, thorough=1250000, shards_quick=4, shards_thorough=16, fuzz="FuzzC19Query", fuzztime=60),
+     Unit("TestC19NormalizeTags", _C19_MAIN, quick=50000, thorough=1000000, shards_quick=2, shards_thorough=8, fuzz="FuzzC19NormalizeTags", fuzztime=60),
      Unit("TestC19RestrictedTags", _C19_MAIN, quick=50000, thorough=1000000, shards_quick=2, shards_thorough=8),
      Unit("TestC19WTagsAndSearch", _C19_MAIN, quick=1000, thorough=50000, shards_quick=8, shards_thorough=16, timeout_quick=300),
      ],
